@@ -539,7 +539,9 @@ class NestedSampler(BaseNestedSampler):
             self.reset_permutations = self.reset_flow
 
     def initialise_history(self):
-        if not self.history:
+        # Also complete a dictionary that only contains the base entries,
+        # e.g. from a checkpoint written part-way through this method
+        if not self.history or "iterations" not in self.history:
             super().initialise_history()
             self.history.update(
                 dict(
